@@ -1,6 +1,6 @@
 (* C18 group 2 - theorems about the handshake message models of C18Hs.v. *)
 From DtlsV Require Import Lib.Bytes Gen.Generated Codec.C18Comb Codec.C18CombSound
-  Codec.C18Rec Codec.C18RecSound Codec.C18Hs.
+  Codec.C18Rec Codec.C18RecSound Codec.C18Ext Codec.C18ExtSound Codec.C18Hs.
 From Coq Require Import ZifyN ZifyNat ZifyBool.
 Open Scope N_scope.
 
@@ -146,18 +146,40 @@ Proof. unfold cv_body. apply decok_seq; [apply decok_sigalg|apply decok_vec, wde
 Lemma trunc_cv_body : trunc cv_body.
 Proof. unfold cv_body. apply trunc_seq; [apply sound_sigalg|apply trunc_sigalg|apply trunc_vec]. Qed.
 
+(* lemma over the regenerated table: outside RSA-PSS, hash and signature fit one byte each *)
+Lemma sigschemes_fit :
+  forallb (fun e : N * (N * N) => is_pss (snd (snd e)) || ((fst (snd e) <=? 255) && (snd (snd e) <=? 255)))
+          g_c18_sigschemes = true.
+Proof. vm_compute. reflexivity. Qed.
+
+Lemma sigalg_wf_fits h s : sigalg_wf (h, s) = true -> is_pss s || ((h <=? 255) && (s <=? 255)) = true.
+Proof.
+  unfold sigalg_wf. destruct (sig_lookup (sig_scheme_of (h, s))) as [[h' s']|] eqn:E; [|discriminate].
+  cbn [fst snd]. intro H. apply andb_prop in H. destruct H as [H1 H2]. apply N.eqb_eq in H1, H2. subst h' s'.
+  apply assoc_in in E. exact (proj1 (forallb_forall _ _) sigschemes_fit _ E).
+Qed.
+
 Theorem cert_verify_roundtrip : wsound w_cert_verify.
 Proof. apply wsound_guard, wsound_exact, sound_cv_body. Qed.
+(* every accepted CertificateVerify - the RSA-PSS schemes included - re-encodes *)
+Lemma cert_verify_decok : wdec_ok w_cert_verify.
+Proof.
+  apply wdecok_guard; [|apply wdecok_exact, decok_cv_body].
+  intros [[h s] sg] W _. unfold w_exact, cv_body, c_seq, c_bind, c_sigalg, c_map in W; cbn [wwf wf fst snd] in W.
+  apply andb_prop in W. destruct W as [W _]. apply andb_prop in W. destruct W as [W _].
+  unfold cv_enc_ok. rewrite W, (sigalg_wf_fits h s W). reflexivity.
+Qed.
+Theorem cert_verify_fixpoint : wfixpoint w_cert_verify.
+Proof. apply wfixpoint_of; [apply cert_verify_roundtrip|apply cert_verify_decok]. Qed.
 Theorem cert_verify_refix : wrefix w_cert_verify.
-Proof. apply wrefix_guard; [apply wsound_exact, sound_cv_body|apply wdecok_exact, decok_cv_body]. Qed.
+Proof. apply wrefix_of; [apply cert_verify_roundtrip|apply cert_verify_decok]. Qed.
 Theorem cert_verify_trunc : wtrunc w_cert_verify.
 Proof. apply wtrunc_guard, wtrunc_exact, trunc_cv_body. Qed.
 
-(* REFUTED: "every accepted input re-encodes" - an RSA-PSS scheme is accepted by Unmarshal but
-   Marshal refuses signature algorithm values above 0xFF *)
-Theorem cert_verify_reencode_refuted :
-  exists b x, bytes_ok b = true /\ wdec w_cert_verify b = Some x /\ wenc w_cert_verify x = None.
-Proof. exists [8; 4; 0; 1; 170]. eexists. split; [reflexivity|]. split; [vm_compute; reflexivity|]. vm_compute; reflexivity. Qed.
+(* the regression input: rsa_pss_rsae_sha256 decodes and re-encodes to itself *)
+Example cert_verify_pss_reencodes :
+  obind (wdec w_cert_verify [8; 4; 0; 1; 170]) (wenc w_cert_verify) = Some [8; 4; 0; 1; 170].
+Proof. vm_compute. reflexivity. Qed.
 
 (* ------------------------------------------------------------------ ClientKeyExchange *)
 
@@ -169,127 +191,173 @@ Proof. intro H. subst n. apply drop_app_exact. Qed.
 Lemma len_be_enc k n : len (be_enc k n) = N.of_nat k.
 Proof. unfold len. now rewrite be_enc_length. Qed.
 
-Theorem cke_roundtrip kx : wsound (w_cke kx).
+(* a codec whose encoder is replaced by one that agrees with it on the domain *)
+Definition retarget {A} (w : wcodec A) (enc' : A -> option bytes) : wcodec A :=
+  {| wwf := wwf w; wenc := enc'; wdec := wdec w |}.
+
+Section Retarget.
+  Context {A : Type} (w : wcodec A) (enc' : A -> option bytes).
+  Hypothesis agree : forall a, wwf w a = true -> enc' a = wenc w a.
+
+  Lemma wsound_retarget : wsound w -> wsound (retarget w enc').
+  Proof.
+    intros S a W. cbn [wwf wenc wdec retarget] in *. destruct (S a W) as [e [E D]].
+    exists e. rewrite (agree a W). split; assumption.
+  Qed.
+  Lemma wdecok_retarget : wdec_ok w -> wdec_ok (retarget w enc').
+  Proof.
+    intros D b a Hb H. cbn [wwf wenc wdec retarget] in *. destruct (D b a Hb H) as [W [e [E L]]].
+    split; [exact W|]. exists e. rewrite (agree a W). split; assumption.
+  Qed.
+  Lemma wtrunc_retarget : wtrunc w -> wtrunc (retarget w enc').
+  Proof.
+    intros T a e k W E Hk. cbn [wwf wenc wdec retarget] in *. rewrite (agree a W) in E. exact (T a e k W E Hk).
+  Qed.
+  Lemma wlenient_retarget : wlenient w -> wlenient (retarget w enc').
+  Proof.
+    intros S a rest W. cbn [wwf wenc wdec retarget] in *. destruct (S a rest W) as [e [E D]].
+    exists e. rewrite (agree a W). split; assumption.
+  Qed.
+End Retarget.
+
+(* the three layouts *)
+Lemma cke_psk_fg (y : cke) : (match y with (Some _, None) => true | _ => false end) = true ->
+  (Some (odef (fst y)), @None bytes) = y.
+Proof. destruct y as [[h|] [k|]]; intro H; try discriminate. reflexivity. Qed.
+Lemma cke_ecdhe_fg (y : cke) : (match y with (None, Some _) => true | _ => false end) = true ->
+  (@None bytes, Some (odef (snd y))) = y.
+Proof. destruct y as [[h|] [k|]]; intro H; try discriminate. reflexivity. Qed.
+Lemma cke_both_fg (y : cke) : (match y with (Some _, Some _) => true | _ => false end) = true ->
+  (Some (odef (fst y)), Some (odef (snd y))) = y.
+Proof. destruct y as [[h|] [k|]]; intro H; try discriminate. reflexivity. Qed.
+
+Lemma sound_cke_both_c : sound (c_seq (c_opaque 2) (c_opaque1 1)). Proof. ext_auto. Qed.
+Lemma decok_cke_both_c : dec_ok (c_seq (c_opaque 2) (c_opaque1 1)). Proof. ext_auto. Qed.
+Lemma trunc_cke_both_c : trunc (c_seq (c_opaque 2) (c_opaque1 1)). Proof. ext_auto. Qed.
+
+Lemma cke_psk_sound : wsound w_cke_psk.
+Proof. apply wsound_map; [intros y W _; apply cke_psk_fg, W|apply wsound_lenient; ext_auto]. Qed.
+Lemma cke_psk_decok : wdec_ok w_cke_psk.
+Proof. apply wdecok_map_iso; [intros a _; split; reflexivity|apply wdecok_lenient; ext_auto]. Qed.
+Lemma cke_psk_trunc : wtrunc w_cke_psk.
+Proof. apply wtrunc_map, wtrunc_lenient. ext_auto. Qed.
+Lemma cke_psk_lenient : wlenient w_cke_psk.
+Proof. apply wlenient_map; [intros y W _; apply cke_psk_fg, W|apply wlenient_lenient; ext_auto]. Qed.
+
+Lemma cke_ecdhe_sound : wsound w_cke_ecdhe.
+Proof. apply wsound_map; [intros y W _; apply cke_ecdhe_fg, W|apply wsound_lenient; ext_auto]. Qed.
+Lemma cke_ecdhe_decok : wdec_ok w_cke_ecdhe.
+Proof. apply wdecok_map_iso; [intros a _; split; reflexivity|apply wdecok_lenient; ext_auto]. Qed.
+Lemma cke_ecdhe_trunc : wtrunc w_cke_ecdhe.
+Proof. apply wtrunc_map, wtrunc_lenient. ext_auto. Qed.
+Lemma cke_ecdhe_lenient : wlenient w_cke_ecdhe.
+Proof. apply wlenient_map; [intros y W _; apply cke_ecdhe_fg, W|apply wlenient_lenient; ext_auto]. Qed.
+
+Lemma cke_both_sound : wsound w_cke_both.
+Proof. apply wsound_map; [intros y W _; apply cke_both_fg, W|apply wsound_lenient, sound_cke_both_c]. Qed.
+Lemma cke_both_decok : wdec_ok w_cke_both.
 Proof.
-  intros [hint pk] W. cbn [wwf wenc wdec w_cke] in *. unfold cke_wf in W.
-  repeat (apply andb_prop in W; destruct W as [W ?]).
-  apply negb_true_iff in W. unfold cke_enc, cke_dec. rewrite W.
-  destruct hint as [h|]; destruct pk as [k|]; try discriminate.
-  - (* PSK + ECDHE *)
-    repeat match goal with Hx : _ && _ = true |- _ => apply andb_prop in Hx; destruct Hx end.
-    match goal with Hx : kx_psk kx = true |- _ => rewrite Hx end.
-    match goal with Hx : kx_ecdhe kx = true |- _ => rewrite Hx end.
-    destruct (N.ltb_spec 255 (len k)) as [|_]; [lia|].
-    eexists. split; [reflexivity|].
-    rewrite <- app_assoc.
-    assert (Hl : len (be_enc 2 (len h) ++ h ++ len k :: k) = 2 + len h + 1 + len k).
-    { rewrite !len_app, len_be_enc, len_cons. lia. }
-    rewrite Hl. destruct (N.ltb_spec (2 + len h + 1 + len k) 2) as [|_]; [lia|].
-    rewrite firstn_app_len by apply be_enc_length.
-    rewrite be_dec_enc by (change (256 ^ N.of_nat 2) with 65536; lia).
-    destruct (N.ltb_spec (2 + len h + 1 + len k - 2) (len h)) as [|_]; [lia|].
-    rewrite skipn_app_len by apply be_enc_length. rewrite take_app_exact.
-    rewrite app_assoc. rewrite drop_app_len by (rewrite len_app, len_be_enc; lia).
-    destruct (N.ltb_spec (len k) (len k)) as [|_]; [lia|]. reflexivity.
-  - (* PSK only *)
-    repeat match goal with Hx : _ && _ = true |- _ => apply andb_prop in Hx; destruct Hx end.
-    match goal with Hx : kx_psk kx = true |- _ => rewrite Hx end.
-    match goal with Hx : negb (kx_ecdhe kx) = true |- _ => apply negb_true_iff in Hx; rewrite Hx end.
-    eexists. split; [reflexivity|].
-    assert (Hl : len (be_enc 2 (len h) ++ h) = 2 + len h) by (rewrite len_app, len_be_enc; lia).
-    rewrite Hl. destruct (N.ltb_spec (2 + len h) 2) as [|_]; [lia|].
-    rewrite firstn_app_len by apply be_enc_length.
-    rewrite be_dec_enc by (change (256 ^ N.of_nat 2) with 65536; lia).
-    destruct (N.ltb_spec (2 + len h - 2) (len h)) as [|_]; [lia|].
-    rewrite skipn_app_len by apply be_enc_length.
-    replace h with (h ++ []) at 2 by apply app_nil_r. rewrite take_app_exact. reflexivity.
-  - (* ECDHE only *)
-    repeat match goal with Hx : _ && _ = true |- _ => apply andb_prop in Hx; destruct Hx end.
-    match goal with Hx : negb (kx_psk kx) = true |- _ => apply negb_true_iff in Hx; rewrite Hx end.
-    match goal with Hx : kx_ecdhe kx = true |- _ => rewrite Hx end.
-    destruct (N.ltb_spec 255 (len k)) as [|_]; [lia|].
-    eexists. split; [reflexivity|]. cbn [app]. rewrite len_cons.
-    destruct (N.ltb_spec (1 + len k) 2) as [|_]; [lia|].
-    unfold drop. cbn [N.to_nat skipn].
-    destruct (N.ltb_spec (len k) (len k)) as [|_]; [lia|]. reflexivity.
+  apply wdecok_map_iso; [intros [h k] _; split; reflexivity|apply wdecok_lenient, decok_cke_both_c].
+Qed.
+Lemma cke_both_trunc : wtrunc w_cke_both.
+Proof. apply wtrunc_map, wtrunc_lenient, trunc_cke_both_c. Qed.
+Lemma cke_both_lenient : wlenient w_cke_both.
+Proof. apply wlenient_map; [intros y W _; apply cke_both_fg, W|apply wlenient_lenient, sound_cke_both_c]. Qed.
+
+Lemma be_enc1_small n : n < 256 -> be_enc 1 n = [n].
+Proof.
+  intro H. cbn [be_enc]. change (256 ^ N.of_nat 0) with 1. rewrite N.div_1_r, N.mod_small by exact H. reflexivity.
 Qed.
 
-(* what decoding guarantees, given that the value re-encodes *)
-Lemma cke_dec_enc_wf kx b x e : bytes_ok b = true -> cke_dec kx b = Some x -> cke_enc x = Some e ->
-  cke_wf kx x = true /\ (length e <= length b)%nat.
+(* on the domain of each layout the context-free Marshal produces the layout's encoding *)
+Lemma cke_enc_agrees kx x : wwf (w_cke_layout kx) x = true -> cke_enc x = wenc (w_cke_layout kx) x.
 Proof.
-  intros Hb Hd He. unfold cke_dec in Hd.
-  remember (skipn 2 b) as sk eqn:Hsk. remember (firstn 2 b) as f2 eqn:Hf2e.
-  destruct (N.ltb_spec (len b) 2) as [|Hl2]; [discriminate|].
-  destruct (N.eqb_spec kx 0) as [|Hkx]; [discriminate|].
-  unfold cke_wf. destruct (N.eqb_spec kx 0) as [|_]; [contradiction|]. cbn [negb andb].
-  destruct (kx_psk kx) eqn:Hp.
+  unfold w_cke_layout. destruct (kx =? 0); [intro H; discriminate H|].
+  destruct (kx_psk kx), (kx_ecdhe kx); destruct x as [[h|] [k|]];
+    unfold w_cke_both, w_cke_psk, w_cke_ecdhe, w_cke_neither, w_map, w_lenient, c_seq, c_bind, c_opaque, c_opaque1,
+      c_vec, w_check, w_guard, w_rest; cbn [wwf wenc wf enc fst snd odef andb]; intro W; try discriminate W.
+  - (* both *)
+    change (256 ^ N.of_nat 2) with 65536 in *. change (256 ^ N.of_nat 1) with 256 in *.
+    destruct (len h <? 65536) eqn:Hh; [|rewrite !andb_false_r in W; discriminate W].
+    apply andb_prop in W; destruct W as [_ W].
+    apply andb_prop in W; destruct W as [W Hl]. apply andb_prop in W; destruct W as [_ Hnn].
+    rewrite Hnn in Hl |- *. rewrite Hl. apply N.ltb_lt in Hl.
+    unfold cke_enc. destruct (N.ltb_spec 255 (len k)) as [|_]; [lia|].
+    rewrite (be_enc1_small _ Hl), <- app_assoc. reflexivity.
   - (* PSK *)
-    destruct (N.ltb_spec (len b - 2) (be_dec f2)) as [|Hl]; [discriminate|].
-    set (l := be_dec f2) in *.
-    assert (Hf2 : length f2 = 2%nat) by (subst f2; rewrite firstn_length; unfold len in Hl2; lia).
-    destruct (bytes_ok_split b 2 Hb) as [Hok2 Hoks]. rewrite <- Hsk in Hoks. rewrite <- Hf2e in Hok2.
-    pose proof (be_dec_bound _ Hok2) as Hbd. rewrite Hf2 in Hbd. change (256 ^ N.of_nat 2) with 65536 in Hbd.
-    fold l in Hbd.
-    assert (Hlh : len (take l sk) = l).
-    { apply len_take. subst sk. unfold len in *. rewrite skipn_length. lia. }
-    assert (Hokh : bytes_ok (take l sk) = true) by apply (bytes_ok_split _ _ Hoks).
-    destruct (kx_ecdhe kx) eqn:Hecd.
-    + destruct (drop (l + 2) b) as [|pkl rest] eqn:Ed; [discriminate|].
-      destruct (N.ltb_spec (len rest) pkl) as [|Hpk]; [discriminate|].
-      inversion Hd; subst x; clear Hd. unfold cke_enc in He.
-      destruct (N.ltb_spec 255 (len rest)) as [|Hk]; [discriminate|]. inversion He; subst e; clear He.
-      assert (Hokr : bytes_ok (pkl :: rest) = true).
-      { rewrite <- Ed. apply (bytes_ok_split b (N.to_nat (l + 2)) Hb). }
-      unfold bytes_ok in Hokr. cbn [forallb] in Hokr. apply andb_prop in Hokr. destruct Hokr as [_ Hokr].
-      fold (bytes_ok rest) in Hokr.
-      rewrite Hlh, Hokh, Hokr.
-      destruct (N.ltb_spec l 65536) as [_|]; [|lia].
-      destruct (N.leb_spec (len rest) 255) as [_|]; [|lia]. split; [reflexivity|].
-      assert (Hdl : len (drop (l + 2) b) = len b - (l + 2)) by apply len_drop.
-      rewrite Ed, len_cons in Hdl.
-      cbn [length]. rewrite app_length. cbn [length]. unfold len in *. lia.
-    + inversion Hd; subst x; clear Hd. unfold cke_enc in He. inversion He; subst e; clear He.
-      rewrite Hlh, Hokh. destruct (N.ltb_spec l 65536) as [_|]; [|lia]. split; [reflexivity|].
-      cbn [length]. unfold len in *. lia.
-  - (* no PSK *)
-    destruct (kx_ecdhe kx) eqn:Hecd.
-    + unfold drop in Hd. cbn [N.to_nat skipn] in Hd. destruct b as [|pkl rest]; [discriminate|].
-      destruct (N.ltb_spec (len rest) pkl) as [|Hpk]; [discriminate|].
-      inversion Hd; subst x; clear Hd. unfold cke_enc in He.
-      destruct (N.ltb_spec 255 (len rest)) as [|Hk]; [discriminate|]. inversion He; subst e; clear He.
-      unfold bytes_ok in Hb. cbn [forallb] in Hb. apply andb_prop in Hb. destruct Hb as [_ Hokr].
-      fold (bytes_ok rest) in Hokr. rewrite Hokr. rewrite len_cons in Hl2.
-      destruct (N.leb_spec (len rest) 255) as [_|]; [|lia].
-      destruct (N.leb_spec 1 (len rest)) as [_|]; [|lia]. split; [reflexivity|]. cbn [length app]. lia.
-    + inversion Hd; subst x; clear Hd. discriminate He.
+    change (256 ^ N.of_nat 2) with 65536 in *.
+    destruct (len h <? 65536) eqn:Hh; [|rewrite !andb_false_r in W; discriminate W]. reflexivity.
+  - (* ECDHE *)
+    change (256 ^ N.of_nat 1) with 256 in *.
+    apply andb_prop in W; destruct W as [W Hl]. apply andb_prop in W; destruct W as [_ Hnn].
+    rewrite Hnn in Hl |- *. rewrite Hl. apply N.ltb_lt in Hl.
+    unfold cke_enc. destruct (N.ltb_spec 255 (len k)) as [|_]; [lia|].
+    rewrite (be_enc1_small _ Hl). reflexivity.
 Qed.
+
+Lemma w_cke_retarget kx : w_cke kx = retarget (w_cke_layout kx) cke_enc.
+Proof. reflexivity. Qed.
+
+Lemma cke_layout_sound kx : wsound (w_cke_layout kx).
+Proof.
+  unfold w_cke_layout. destruct (kx =? 0); [intros a W; discriminate W|].
+  destruct (kx_psk kx), (kx_ecdhe kx);
+    [apply cke_both_sound|apply cke_psk_sound|apply cke_ecdhe_sound|intros a W; discriminate W].
+Qed.
+Lemma cke_layout_trunc kx : wtrunc (w_cke_layout kx).
+Proof.
+  unfold w_cke_layout. destruct (kx =? 0); [intros a e k W; discriminate W|].
+  destruct (kx_psk kx), (kx_ecdhe kx);
+    [apply cke_both_trunc|apply cke_psk_trunc|apply cke_ecdhe_trunc|intros a e k W; discriminate W].
+Qed.
+Lemma cke_layout_lenient kx : wlenient (w_cke_layout kx).
+Proof.
+  unfold w_cke_layout. destruct (kx =? 0); [intros a r W; discriminate W|].
+  destruct (kx_psk kx), (kx_ecdhe kx);
+    [apply cke_both_lenient|apply cke_psk_lenient|apply cke_ecdhe_lenient|intros a r W; discriminate W].
+Qed.
+Lemma cke_layout_decok kx : kx_psk kx || kx_ecdhe kx = true -> wdec_ok (w_cke_layout kx).
+Proof.
+  unfold w_cke_layout. destruct (kx =? 0); [intros _ b a _ H; discriminate H|].
+  destruct (kx_psk kx), (kx_ecdhe kx); intro H; try discriminate H;
+    [apply cke_both_decok|apply cke_psk_decok|apply cke_ecdhe_decok].
+Qed.
+
+Theorem cke_roundtrip kx : wsound (w_cke kx).
+Proof. rewrite w_cke_retarget. apply wsound_retarget; [apply cke_enc_agrees|apply cke_layout_sound]. Qed.
+(* truncating an encoded ClientKeyExchange is rejected *)
+Theorem cke_trunc kx : wtrunc (w_cke kx).
+Proof. rewrite w_cke_retarget. apply wtrunc_retarget; [apply cke_enc_agrees|apply cke_layout_trunc]. Qed.
+(* declared lengths are honoured: bytes after the declared identity / public key are never
+   consumed - appending anything to an encoding decodes to the same value *)
+Theorem cke_beyond_declared_ignored kx : wlenient (w_cke kx).
+Proof. rewrite w_cke_retarget. apply wlenient_retarget; [apply cke_enc_agrees|apply cke_layout_lenient]. Qed.
+(* under every real key-exchange context an accepted input re-encodes to a fixed point *)
+Lemma cke_decok kx : kx_psk kx || kx_ecdhe kx = true -> wdec_ok (w_cke kx).
+Proof.
+  intro H. rewrite w_cke_retarget. apply wdecok_retarget; [apply cke_enc_agrees|apply cke_layout_decok, H].
+Qed.
+Theorem cke_fixpoint kx : kx_psk kx || kx_ecdhe kx = true -> wfixpoint (w_cke kx).
+Proof. intro H. apply wfixpoint_of; [apply cke_roundtrip|apply cke_decok, H]. Qed.
 
 Theorem cke_refix kx : wrefix (w_cke kx).
 Proof.
-  intros b x e Hb Hd He. cbn [wenc wdec w_cke] in *.
-  destruct (cke_dec_enc_wf kx b x e Hb Hd He) as [W L]. split; [exact L|].
-  destruct (cke_roundtrip kx x W) as [e' [E' D']]. cbn [wenc wdec w_cke] in *.
-  rewrite He in E'. inversion E'; subst e'. exists x. split; [exact D'|exact He].
+  destruct (kx_psk kx || kx_ecdhe kx) eqn:H.
+  - apply wrefix_of; [apply cke_roundtrip|apply cke_decok, H].
+  - intros b x e Hb Hd He. exfalso. cbn [wenc wdec w_cke] in *. unfold cke_dec, w_cke_layout in Hd.
+    apply orb_false_iff in H. destruct H as [H1 H2]. rewrite H1, H2 in Hd.
+    destruct (kx =? 0); [discriminate Hd|]. cbn [wdec w_cke_neither] in Hd.
+    destruct (len b <? 2); [discriminate Hd|]. inversion Hd; subst x. discriminate He.
 Qed.
 
-(* REFUTED: "lengths declared inside a message are honoured" - the declared public-key length
-   only has to be at most the number of remaining bytes; all remaining bytes become the key. *)
-Theorem cke_declared_length_refuted :
-  exists b pk, cke_dec 4 b = Some (None, Some pk) /\ hd0 b = 1 /\ len pk = 3.
-Proof. exists [1; 170; 187; 204]. eexists. split; [vm_compute; reflexivity|]. split; reflexivity. Qed.
-
-(* REFUTED: "every accepted input re-encodes" - more than 255 bytes after the length byte *)
-Theorem cke_reencode_refuted :
-  exists b x, bytes_ok b = true /\ cke_dec 4 b = Some x /\ cke_enc x = None.
-Proof.
-  exists (0 :: repeat 7 256). eexists. split; [vm_compute; reflexivity|].
-  split; [vm_compute; reflexivity|]. vm_compute; reflexivity.
-Qed.
-
-(* the input on which the implementation indexes past the end (the model rejects it) *)
-Example cke_psk_ecdhe_two_bytes : cke_dec 6 [0; 0] = None.
-Proof. reflexivity. Qed.
+(* the regression inputs of the repaired decoder: no value where the old code indexed past the
+   end; exactly the declared key, the byte after it ignored; an empty key refused *)
+Example cke_regressions :
+  cke_dec 6 [0; 0] = None /\ cke_dec 4 [0; 0] = None /\
+  cke_dec 4 [1; 170; 0] = Some (None, Some [170]) /\
+  cke_dec 4 [1; 170; 187; 204] = Some (None, Some [170]) /\
+  cke_dec 6 [0; 1; 9; 1; 170; 187] = Some (Some [9], Some [170]).
+Proof. vm_compute. repeat split; reflexivity. Qed.
 
 (* ------------------------------------------------------------------ the message switch *)
 
